@@ -5,6 +5,8 @@ INVARIANT DurInv
 INVARIANT StringInv
 INVARIANT MismatchInv
 INVARIANT Emit
+INVARIANT CollectInv
+INVARIANT EmitCollect
 INVARIANT AttrInv
 INVARIANT EmitAttr
 CHECK_DEADLOCK FALSE
